@@ -1,6 +1,8 @@
 package verifsim
 
 import (
+	"errors"
+	"io"
 	"context"
 	"fmt"
 	"strconv"
@@ -17,7 +19,7 @@ import (
 
 // C05: accepted logins reach the correlator exactly once, matching the written event.
 
-var c05Faults = []string{"none", "consumer-delayed", "write-error", "cancel-while-blocked", "cancel-before-call", "consumer-delayed-seconds-via-ingester"}
+var c05Faults = []string{"none", "consumer-delayed", "write-error", "cancel-while-blocked", "cancel-before-call", "consumer-delayed-seconds-via-ingester", "none-via-pipe"}
 
 func init() {
 	register(&propDef{
@@ -27,7 +29,7 @@ func init() {
 			{Name: "negatives", Fn: scnC05Neg, Weight: 1},
 		},
 		Rule: "accepted public-key (exact / trailing text / certificate id) and password lines with generated fields x fault {none, consumer delayed by k steps, write error at the event write, " +
-			"cancellation while the hand-off is blocked on an unready correlator, cancellation before the call, correlator busy for 0.3-9 simulated seconds with the line going through the real syslog ingester callback} enumerated within each group of runs; the sshd processor runs as a simulated task, the correlator side of the " +
+			"cancellation while the hand-off is blocked on an unready correlator, cancellation before the call, correlator busy for 0.3-9 simulated seconds with the line going through the real syslog ingester callback, no fault with the framed line written in taped chunks to a simulated FIFO read by the real syslog ingester} enumerated within each group of runs; the sshd processor runs as a simulated task, the correlator side of the " +
 			"unbuffered logins channel is a second task under scheduler control; negatives: failure forms, unrecognised lines and failure lines whose client-chosen user name embeds a complete accepted-login message must forward nothing and write no succeeded event; " +
 			"non-trivial = the intended fault fired (or, for none/delayed, exactly one hand-off was observed); distinct = distinct (message, fault, delay, schedule hash)",
 		Quick: 8000, Thorough: 300000,
@@ -76,6 +78,29 @@ func scnC05(rc *RunCtx) {
 		delayMs = []int{300, 900, 1500, 2500, 4000, 9000}[t.Choose(6, "delay.ms")]
 		sli := syslog.NewSyslogIngester("/unused", proc, namedpipe.NewNamedPipeIngester(nopLogger, health.NewHealth()))
 		rc.Sim.Spawn("sshd-proc", func() { res.set(sli.Process(ctx, m.Line(t.Choose(3, "pad")))) })
+	} else if fault == "none-via-pipe" {
+		// the framed line is written in taped chunks to a simulated FIFO read by the real syslog
+		// ingester with its own read buffer; the end of the stream is the ingester's normal end
+		path := "/sim/c05-sshd-pipe"
+		pipe := rc.Sim.AddPipe(path)
+		sli := syslog.NewSyslogIngester(path, proc, namedpipe.NewNamedPipeIngester(nopLogger, health.NewHealth()))
+		rc.Sim.Spawn("sshd-proc", func() {
+			err := sli.Ingest(ctx)
+			if errors.Is(err, io.EOF) {
+				err = nil
+			}
+			res.set(err)
+		})
+		line := []byte(m.Line(t.Choose(3, "pad")))
+		pp := &Pipeline{rc: rc}
+		rc.Sim.Spawn("world.sshd", func() {
+			w := pipe.OpenWriter()
+			for _, c := range pp.chunks(line) {
+				simrt.Point("world.chunk")
+				w.Write(c)
+			}
+			w.Close()
+		})
 	} else {
 		rc.Sim.Spawn("sshd-proc", func() {
 			res.set(proc.ProcessSshdLogEntry(ctx, sshd.SshdLogEntry{PID: m.PID, Message: m.Msg}))
@@ -83,7 +108,7 @@ func scnC05(rc *RunCtx) {
 	}
 	cons := &c05Consumer{}
 	delay := 0
-	consumerOn := fault == "none" || fault == "consumer-delayed" || fault == "write-error" || fault == "consumer-delayed-seconds-via-ingester"
+	consumerOn := fault == "none" || fault == "none-via-pipe" || fault == "consumer-delayed" || fault == "write-error" || fault == "consumer-delayed-seconds-via-ingester"
 	if fault == "consumer-delayed" {
 		delay = 1 + t.Choose(30, "delay")
 	}
@@ -192,7 +217,7 @@ func scnC05(rc *RunCtx) {
 			return
 		}
 	}
-	if fault == "none" || fault == "consumer-delayed" || fault == "consumer-delayed-seconds-via-ingester" {
+	if fault == "none" || fault == "none-via-pipe" || fault == "consumer-delayed" || fault == "consumer-delayed-seconds-via-ingester" {
 		rc.R.NonTrivial = len(cons.got) == 1
 		if res.err != nil {
 			rc.Fail("C05", "unexpected-error", "ProcessSshdLogEntry returned %v", res.err)
